@@ -337,4 +337,61 @@ mod v_iface_egress6 {
         let _ = iface.inner.dispatch_ip(CapTx { st: &mut tx }, PacketMeta::default(), packet, &mut iface.fragmenter);
         crate::vassert!(tx.buf0[77] == 1, "prop:deliberately_false_solicitation_target_ends_in_1");
     }
+
+    // ---- experiments (temporary)
+    #[cfg(all(feature = "proto-ipv6", feature = "medium-ethernet"))]
+    fn x_direct(medium_ip: bool, direct_addrs: bool) {
+        let caps = ChecksumCapabilities::default();
+        let now = Instant::from_micros(NOW_US);
+        let mut dev0 = NullDev { medium: if medium_ip { Medium::Ip } else { Medium::Ethernet }, mtu: if medium_ip { MTU } else { MTU + 14 }, checksum: caps };
+        let hw = if medium_ip { HardwareAddress::Ip } else { HardwareAddress::Ethernet(EthernetAddress(OWN_MAC)) };
+        let mut iface = Interface::new(Config::new(hw), &mut dev0, now);
+        if direct_addrs {
+            iface.inner.ip_addrs.push(IpCidr::new(IpAddress::Ipv6(Ipv6Address::from(LL)), 64)).unwrap();
+            iface.inner.ip_addrs.push(IpCidr::new(IpAddress::Ipv6(Ipv6Address::from(GL)), 64)).unwrap();
+        } else {
+            iface.update_ip_addrs(|a| {
+                a.push(IpCidr::new(IpAddress::Ipv6(Ipv6Address::from(LL)), 64)).unwrap();
+                a.push(IpCidr::new(IpAddress::Ipv6(Ipv6Address::from(GL)), 64)).unwrap();
+            });
+        }
+        let peer = peer_addr(true, 7);
+        let pmac = [2u8, 0, 0, 0, 0, 2];
+        if !medium_ip {
+            iface.inner.neighbor_cache.fill(IpAddress::Ipv6(Ipv6Address::from(peer)), HardwareAddress::Ethernet(EthernetAddress(pmac)), now);
+        }
+        let ident: u16 = kani::any();
+        let seq_no: u16 = kani::any();
+        let data: [u8; 4] = kani::any();
+        let icmp = Icmpv6Repr::EchoReply { ident, seq_no, data: &data[..] };
+        let ip = Ipv6Repr { src_addr: Ipv6Address::from(LL), dst_addr: Ipv6Address::from(peer), next_header: IpProtocol::Icmpv6, payload_len: 12, hop_limit: 64 };
+        let packet = Packet::new_ipv6(ip, IpPayload::Icmpv6(icmp));
+        let mut tx = TxState::<N>::new();
+        let r = iface.inner.dispatch_ip(CapTx { st: &mut tx }, PacketMeta::default(), packet, &mut iface.fragmenter);
+        kani::cover!(tx.frames == 1 && data[0] == 0xaa, "captured");
+        crate::vassert!(r.is_ok() && tx.frames == 1, "prop:c10_reply_handed_to_device_exactly_once");
+        let f = &tx.buf0;
+        let ip = if medium_ip { 0 } else { 14 };
+        let plen = check_ipv6(f, ip, tx.len0, MTU, 58, &LL, &peer);
+        crate::vassert!(plen == 12, "prop:c10_ipv6_payload_length_matches_payload");
+        crate::vassert!(sum1071(f, ip + 40, 12, pseudo6(f, ip, 58, 12)) == 0xffff, "prop:c10_icmpv6_checksum_valid");
+    }
+    // @harness props=C10 cfg=KI6i tier=t to=600 mem=8 unwind=20 opts=nomem covers=1
+    #[cfg(all(feature = "proto-ipv6", feature = "medium-ethernet"))]
+    #[kani::proof]
+    pub(crate) fn x1_eth_update() {
+        x_direct(false, false);
+    }
+    // @harness props=C10 cfg=KI6i tier=t to=600 mem=8 unwind=20 opts=nomem covers=1
+    #[cfg(all(feature = "proto-ipv6", feature = "medium-ethernet"))]
+    #[kani::proof]
+    pub(crate) fn x2_eth_direct() {
+        x_direct(false, true);
+    }
+    // @harness props=C10 cfg=KI6i tier=t to=600 mem=8 unwind=20 opts=nomem covers=1
+    #[cfg(all(feature = "proto-ipv6", feature = "medium-ethernet"))]
+    #[kani::proof]
+    pub(crate) fn x3_ip_direct() {
+        x_direct(true, true);
+    }
 }
